@@ -1254,7 +1254,12 @@ RULE = ('Cij inputs: the 21 symmetric basis matrices (index probing), random sym
         'constants as python and numpy ints and floats and 0-d arrays mixed in one call at magnitudes 1..1e11; '
         'axes_check directly; the data model under six working-unit systems, SI and a random seed incl. a change '
         'between two calls; scales also 2^+-100..2^+-480; nu = 0 with non-dyadic moduli, lambda/mu up to 2000; '
-        'general tensors under the 24 cube rotations.  distinct = distinct canonical driver '
+        'general tensors under the 24 cube rotations.  Structured tensors (tie section 9 and search): every '
+        'crystal-system template in three settings (unique axis along z, x, y) rotated about each principal axis '
+        'by multiples of 30 / 45 degrees and by generic / tiny angles; coincidences a system does not force '
+        '(C11=C33, C12=C13, C44=C66, 2C66=C11-C12 ..., singly and as tetragonal / hexagonal / cubic / isotropic / '
+        'rhombohedral "looks") on the matrix and on the named constants; an SPD matrix for every partition of '
+        'the six Voigt indices into blocks, the same plus one entry, dense minus one entry.  distinct = distinct canonical driver '
         'line; non-trivial = non-error case with a non-diagonal / non-identity input')
 ASSUMPTIONS = [
     'numpy.linalg.inv returns the inverse: the model takes the exact rational inverse (hypothesis C*S = 1 and S*C = 1 '
@@ -1753,6 +1758,44 @@ def correspond(ctx):
     for it in range(ctx.n(50, 600)):
         _correspond_sequence(ctx, rng, it)
 
+    # ---- 9. structured tensors: templates in three settings, coincidental ties, block patterns; compliance,
+    #         estimates, normalisation and rotations about the principal axes --------------------------------
+    pool = _struct_pool(rng, 0, ctx.thorough)
+    fams = sorted({p_[1] for p_ in pool})
+    per = ctx.n(14, 400)
+    chosen = []
+    for f in fams:
+        members = [p_ for p_ in pool if p_[1] == f]
+        chosen += members if len(members) <= per else rng.sample(members, per)
+    for label, fam, info0 in chosen:
+        ec, e0 = _call(lambda: EC(Cij=np.array(info0['Cij'])) if 'Cij' in info0 else EC(**info0['kwargs']))
+        if e0 is not None:
+            continue            # (the search reports a refused admissible tensor with its input)
+        C = ec.Cij
+        line = cm.frs(C)
+        cond = float(np.linalg.cond(C))
+        info = {'Cij': C.tolist(), 'family': fam, 'what': label}
+        r, e = _call(lambda: ec.Sij)
+        B.add('struct:sij', 'sij ' + line, r, e, _Cmp(1e-11 * cond), info)
+        r, e = _call(lambda: ec.Sijkl)
+        B.add('struct:sijkl', 'sijkl ' + line, r, e, _Cmp(1e-11 * cond), info)
+        for which in ('bulk', 'shear'):
+            for style in ('Voigt', 'Reuss', 'Hill'):
+                r, e = _call(lambda: [getattr(ec, which)(style)])
+                B.add(f'struct:{which}:{style}', f'estimate {which} {style} ' + line, r, e,
+                      _Cmp(1e-12 * (1.0 if style == 'Voigt' else cond)), info, strip_ok=False)
+        for sysname in rng.sample(SYSTEMS, 3):
+            r, e = _call(lambda: ec.normalized_as(sysname).Cij)
+            B.add('struct:normalized:' + sysname, f'normalized {sysname} ' + line, r, e,
+                  _Cmp(1e-11 * (cond if sysname == 'isotropic' else 1.0), thresh=1e-9), info)
+        axis = rng.randrange(3)
+        for lab, R in _axis_rotations(rng, axis, 1, 1):
+            norms = np.linalg.norm(R, axis=1)
+            r, e = _call(lambda: ec.transform(R).Cij)
+            B.add('struct:transform', 'transform ' + line + ' ' + cm.frs(R) + ' ' + cm.frs(norms), r, e,
+                  _Cmp(1e-9, thresh=1e-8), {**info, 'axes': R.tolist(), 'rotation': lab})
+    B.run()
+
 
 _SEQ_READS = [('get', 'cij'), ('get', 'sij'), ('get', 'cij9'), ('get', 'cijkl'), ('get', 'sijkl'),
               ('est', 'bulk', 'Voigt'), ('est', 'bulk', 'Reuss'), ('est', 'bulk', 'Hill'), ('est', 'shear', 'Voigt'),
@@ -2185,9 +2228,11 @@ def _template(kind, v):
         put(5, 5, v['C66'] if kind == 'tetragonal' else (v['C11'] - v['C12']) / 2)
         if kind == 'rhombohedral':
             put(0, 3, v['C14']); put(1, 3, -v['C14']); put(4, 5, v['C14'])
-        if kind == 'tetragonal':
-            put(0, 5, v.get('C16', 0.0)); put(1, 5, -v.get('C16', 0.0))
-    elif kind == 'orthorhombic':
+            if v.get('C15'):
+                put(0, 4, v['C15']); put(1, 4, -v['C15']); put(3, 5, -v['C15'])
+        if kind == 'tetragonal' and v.get('C16'):
+            put(0, 5, v['C16']); put(1, 5, -v['C16'])
+    elif kind in ('orthorhombic', 'monoclinic', 'triclinic'):
         for k, x in v.items():
             put(int(k[1]) - 1, int(k[2]) - 1, x)
     else:
@@ -2243,6 +2288,385 @@ def _spd_cond(rng, cond):
     C = (Q * ev) @ Q.T
     C = (C + C.T) / 2
     return C * rng.choice([1.0, 100.0])
+
+
+# ---- structured tensors: templates in every setting x rotations about the principal axes, coincidental ties,
+# sparsity patterns ------------------------------------------------------------------------------------------
+# Dense random SPD matrices and exact crystal templates under their own symmetry rotations never reach code that
+# switches on the SHAPE of a tensor (entries that coincide, blocks that vanish, a rotation about one coordinate axis).
+# The pool below is built from three families, each crossed with the others:
+#   (a) every crystal-system template (standard setting and the settings with the unique axis along x / y, i.e. the
+#       template carried along by an axis permutation), rotated about EACH principal axis by special angles (multiples
+#       of 30 and 45 degrees, written with exact 0, 1/2, 1 entries where they exist) and by generic / tiny angles;
+#   (b) coincidences between constants that the system does not force (C11 = C33, C12 = C13, C44 = C66,
+#       2 C66 = C11 - C12 ..., one at a time and all together), on the named constants and on the matrix;
+#   (c) sparsity patterns: for every partition of the six Voigt indices into blocks an SPD matrix that couples
+#       everything inside a block and nothing between blocks; the same with one extra entry between two blocks; dense
+#       matrices with one entry removed.
+# Every member is an ordinary admissible stiffness, so every clause of the property applies to it unchanged.
+STRUCT_KINDS = ['isotropic', 'cubic', 'hexagonal', 'tetragonal', 'tetragonal6', 'rhombohedral', 'rhombohedral6',
+                'orthorhombic', 'monoclinic', 'triclinic']
+_S3 = math.sqrt(3.0) / 2
+_R2 = math.sqrt(0.5)
+# (degrees, cos, sin) with the exactly representable entries written as such
+SPECIAL_ANGLES = [(90, 0.0, 1.0), (180, -1.0, 0.0), (270, 0.0, -1.0), (120, -0.5, _S3), (240, -0.5, -_S3),
+                  (60, 0.5, _S3), (300, 0.5, -_S3), (45, _R2, _R2), (135, -_R2, _R2), (30, _S3, 0.5), (150, -_S3, 0.5)]
+
+
+def _axis_rotation(axis, c, s):
+    """proper rotation about the coordinate axis `axis` (0, 1, 2) with cos = c, sin = s (rows are the new axes)"""
+    np = _np()
+    i, j = [(1, 2), (2, 0), (0, 1)][axis]
+    R = np.zeros((3, 3))
+    R[axis, axis] = 1.0
+    R[i, i] = R[j, j] = c
+    R[i, j] = s
+    R[j, i] = -s
+    return R
+
+
+def _axis_rotations(rng, axis, nspecial, ngeneric):
+    """[(label, R)]: rotations about one principal axis by special and generic angles"""
+    out = []
+    for deg, c, s in rng.sample(SPECIAL_ANGLES, min(nspecial, len(SPECIAL_ANGLES))):
+        if rng.random() < 0.3:          # the same angle through cos / sin of the float angle (entries like 6e-17)
+            c, s = math.cos(math.radians(deg)), math.sin(math.radians(deg))
+        out.append((f'{deg} deg about {"xyz"[axis]}', _axis_rotation(axis, c, s)))
+    for k in range(ngeneric):
+        th = [math.radians(37.0), rng.uniform(0, 2 * math.pi), 10.0 ** rng.uniform(-6, -2),
+              math.radians(rng.choice([90, 120, 180])) + 10.0 ** rng.uniform(-7, -4)][(k + rng.randrange(4)) % 4]
+        out.append((f'{math.degrees(th):.6g} deg about {"xyz"[axis]}', _axis_rotation(axis, math.cos(th), math.sin(th))))
+    return out
+
+
+def _voigt_rotate_exact(R, C):
+    """the 6x6 of the tensor C rotated by the signed permutation R, entries moved exactly (Fractions)"""
+    np = _np()
+    C4 = [Fraction(float(C[_VOIGT[i, j], _VOIGT[k, l]])) for i, j, k, l in _IDX4]
+    W = _rot4([[Fraction(float(x)) for x in row] for row in R], C4)
+    pr = ((0, 0), (1, 1), (2, 2), (1, 2), (0, 2), (0, 1))
+    return np.array([[float(W[27 * i + 9 * j + 3 * k + l]) for (k, l) in pr] for (i, j) in pr])
+
+
+_AXIS_SETTINGS = None
+
+
+def _axis_settings():
+    """identity and the two cyclic axis permutations: the unique axis of a template along z, x, y"""
+    global _AXIS_SETTINGS
+    if _AXIS_SETTINGS is None:
+        np = _np()
+        # rows are the new axes: [[0,1,0],[0,0,1],[1,0,0]] has new y = old z
+        _AXIS_SETTINGS = [('z', np.eye(3)), ('y', np.array([[0, 1.0, 0], [0, 0, 1.0], [1.0, 0, 0]])),
+                          ('x', np.array([[0, 0, 1.0], [1.0, 0, 0], [0, 1.0, 0]]))]
+    return _AXIS_SETTINGS
+
+
+def _struct_consts(rng, kind, dy):
+    """named constants of one system (or lambda, mu / a dense matrix): strong diagonal, moderate coupling"""
+    def val(lo, hi):
+        return cm.dyadic(rng, lo, hi, 3) if dy else rng.uniform(lo, hi)
+    if kind == 'isotropic':
+        return {'lambda': val(1, 8), 'mu': val(1, 6)}
+    if kind == 'triclinic':
+        return None
+    v = {}
+    for k in SYS_KEYS[kind]:
+        i, j = int(k[1]), int(k[2])
+        if i == j:
+            v[k] = val(8, 14) * (0.5 if i > 3 else 1.0)
+        elif j <= 3:
+            v[k] = val(1, 4)
+        else:
+            x = val(0.25, 1.5)
+            v[k] = x if rng.random() < 0.5 else -x
+    return v
+
+
+def _struct_matrix(rng, kind, dy=False):
+    """(6x6 in the standard setting written out here, named constants or None)"""
+    if kind == 'triclinic':
+        return (_spd_dyadic(rng, 3) if dy else _spd_float(rng)), None
+    v = _struct_consts(rng, kind, dy)
+    base = kind.rstrip('6')
+    if base in ('hexagonal', 'rhombohedral'):
+        v['C12'] = min(v['C12'], v['C11'] - 4.0)
+    return _template(base, v), (None if kind == 'isotropic' else v)
+
+
+def _is_spd(M, margin=0.02):
+    np = _np()
+    w = np.linalg.eigvalsh(M)
+    return bool(w.min() > margin * w.max())
+
+
+# coincidences, applied to a 6x6 (name, [(target position, function of the matrix)]).  Sources are chosen such that a
+# relation a higher system forces anyway stays intact (C66 of the hexagonal family is the source of the shear ties).
+def _tie_ops():
+    def at(a, b):
+        return lambda M: M[a, b]
+    half = lambda M: (M[0, 0] - M[0, 1]) / 2                       # noqa: E731
+    single = {
+        'C22=C11': [((1, 1), at(0, 0))], 'C33=C11': [((2, 2), at(0, 0))], 'C33=C22': [((2, 2), at(1, 1))],
+        'C13=C12': [((0, 2), at(0, 1))], 'C23=C12': [((1, 2), at(0, 1))], 'C23=C13': [((1, 2), at(0, 2))],
+        'C44=C66': [((3, 3), at(5, 5))], 'C55=C66': [((4, 4), at(5, 5))], 'C55=C44': [((4, 4), at(3, 3))],
+        '2C66=C11-C12': [((5, 5), half)], '2C44=C11-C12': [((3, 3), half)], '2C55=C11-C12': [((4, 4), half)],
+        'C12=C44': [((0, 1), at(3, 3))], 'C13=C44': [((0, 2), at(3, 3))], 'C66=C12': [((5, 5), at(0, 1))],
+        'C26=-C16': [((1, 5), lambda M: -M[0, 5])], 'C24=-C14': [((1, 3), lambda M: -M[0, 3])],
+        'C56=C14': [((4, 5), at(0, 3))], 'C25=-C15': [((1, 4), lambda M: -M[0, 4])], 'C46=-C15': [((3, 5), lambda M: -M[0, 4])],
+        'C25=C15': [((1, 4), at(0, 4))], 'C35=C15': [((2, 4), at(0, 4))], 'C45=C46': [((3, 4), at(3, 5))],
+    }
+    groups = {
+        'tetragonal look': ['C22=C11', 'C23=C13', 'C55=C44'],
+        'hexagonal look': ['C22=C11', 'C23=C13', 'C55=C44', '2C66=C11-C12'],
+        'cubic look': ['C22=C11', 'C33=C11', 'C13=C12', 'C23=C12', 'C44=C66', 'C55=C66'],
+        'isotropic look': ['C22=C11', 'C33=C11', 'C13=C12', 'C23=C12', '2C66=C11-C12', 'C44=C66', 'C55=C66'],
+        'normal block tied': ['C22=C11', 'C33=C11', 'C13=C12', 'C23=C12'],
+        'shear block tied': ['C44=C66', 'C55=C66'],
+        'rhombohedral look': ['C22=C11', 'C23=C13', 'C55=C44', '2C66=C11-C12', 'C24=-C14', 'C56=C14', 'C25=-C15', 'C46=-C15'],
+    }
+    return single, groups
+
+
+def _apply_ties(M, names):
+    single, _ = _tie_ops()
+    M = M.copy()
+    for nm in names:
+        for (a, b), f in single[nm]:
+            x = f(M)
+            M[a, b] = M[b, a] = x
+    return M
+
+
+def _named_ties(rng, kind, v):
+    """coincidences on the NAMED constants of a system: [(label, constants)] - pairs of the same sort set equal one at
+    a time, and all of them together (the tensor keeps its system, the numbers just happen to coincide)"""
+    sort = lambda k: ('d' if k[1] == k[2] and k[1] in '123' else 's' if k[1] == k[2] else 'o' if k[2] in '123' else 'c')   # noqa: E731
+    keys = list(v)
+    pairs = [(a, b) for a in keys for b in keys if a < b and sort(a) == sort(b)]
+    out = []
+    for a, b in pairs:
+        w = dict(v)
+        w[b] = w[a]
+        out.append((f'{b}={a}', w))
+    w = dict(v)
+    for srt in 'dso':
+        ks = [k for k in keys if sort(k) == srt]
+        for k in ks[1:]:
+            w[k] = w[ks[0]]
+    out.append(('all constants of a sort equal', w))
+    base = kind.rstrip('6')
+    if base not in ('hexagonal', 'rhombohedral') and {'C11', 'C12', 'C44'} <= set(keys):
+        w2 = dict(w)
+        for k in keys:
+            if sort(k) == 's':
+                w2[k] = (w2['C11'] - w2['C12']) / 2
+        out.append(('all equal and 2 C44 = C11 - C12', w2))
+    elif base in ('hexagonal', 'rhombohedral'):
+        w2 = dict(v)
+        w2['C44'] = (w2['C11'] - w2['C12']) / 2
+        out.append(('2 C44 = C11 - C12', w2))
+        w3 = dict(w)
+        w3['C44'] = (w3['C11'] - w3['C12']) / 2
+        out.append(('all equal and 2 C44 = C11 - C12', w3))
+    return out
+
+
+_PARTITIONS = {}
+
+
+def _set_partitions(n=6):
+    """all partitions of range(n) into blocks (203 for n = 6)"""
+    if n not in _PARTITIONS:
+        def rec(items):
+            if not items:
+                yield []
+                return
+            first, rest = items[0], items[1:]
+            for p in rec(rest):
+                for i in range(len(p)):
+                    yield p[:i] + [[first] + p[i]] + p[i + 1:]
+                yield [[first]] + p
+        _PARTITIONS[n] = [sorted(sorted(b) for b in p) for p in rec(list(range(n)))]
+    return _PARTITIONS[n]
+
+
+def _block_spd(rng, part, dy):
+    """SPD 6x6 that couples every pair inside a block of `part` (non-zero entry) and nothing between blocks"""
+    np = _np()
+    M = np.zeros((6, 6))
+    for blk in part:
+        k = len(blk)
+        while True:
+            if dy:
+                A = np.array([[0.0] * k for _ in range(k)])
+                for i in range(k):
+                    for j in range(i):
+                        x = cm.dyadic(rng, 0.25, 2, 3)
+                        A[i, j] = A[j, i] = x if rng.random() < 0.5 else -x
+                for i in range(k):
+                    A[i, i] = np.abs(A[i]).sum() + cm.dyadic(rng, 0.5, 6, 3)
+            else:
+                G = np.array([[rng.gauss(0, 1) for _ in range(k)] for _ in range(k)])
+                A = G @ G.T + 3.0 * np.eye(k)
+            if np.all(A != 0) and np.linalg.cond(A) < 60:
+                break
+        for i, a in enumerate(blk):
+            for j, b in enumerate(blk):
+                M[a, b] = A[i, j]
+    return M
+
+
+def _struct_pool(rng, quick_n, full):
+    """[(label, family, info, make)] of structured admissible tensors.  `make()` -> object (None if refused: a
+    violation has been reported by the caller's _new).  Families: 'template', 'setting', 'tie', 'named-tie', 'block',
+    'block+1', 'dense-1'."""
+    np = _np()
+    pool = []
+
+    def mat(label, fam, M, scale=True):
+        if not _is_spd(M):
+            return
+        sc = rng.choice([1.0, 1.0, 1.0, 160.2176621, 2.0 ** -33, 2.0 ** 37]) if scale else 1.0
+        pool.append((label, fam, {'Cij': (M * sc).tolist()}))
+
+    def named(label, fam, v):
+        pool.append((label, fam, {'kwargs': _shuffled(rng, v)}))
+
+    sets = _axis_settings()
+    for kind in STRUCT_KINDS:
+        for rep in range(2 if full else 1):
+            dy = (rep + STRUCT_KINDS.index(kind)) % 2 == 0
+            M, v = _struct_matrix(rng, kind, dy)
+            if v is not None:
+                named(f'{kind} constants', 'template', v)
+            else:
+                mat(f'{kind} template', 'template', M, scale=False)
+            for axname, P in sets[1:]:
+                mat(f'{kind} template, unique axis along {axname}', 'setting', _voigt_rotate_exact(P, M), scale=False)
+            # (b) coincidences on the matrix ...
+            single, groups = _tie_ops()
+            names = list(groups) + (list(single) if full else rng.sample(list(single), 4))
+            for nm in names:
+                T = _apply_ties(M, groups.get(nm, [nm]))
+                if not np.array_equal(T, M):
+                    P = sets[rng.randrange(3)][1]
+                    mat(f'{kind} template with {nm}', 'tie', T if rng.random() < 0.6 else _voigt_rotate_exact(P, T))
+            # ... and on the named constants (the tensor stays in its system)
+            if v is not None:
+                ties = _named_ties(rng, kind, v)
+                keep = ties if full else ties[-3:] + rng.sample(ties[:-3], min(2, max(0, len(ties) - 3)))
+                for lab, w in keep:
+                    base = kind.rstrip('6')
+                    if _is_spd(_template(base, w)):
+                        named(f'{kind} constants with {lab}', 'named-tie', w)
+    # (c) sparsity patterns
+    parts = _set_partitions(6)
+    for n, part in enumerate(parts):
+        if len(part) == 1:
+            continue
+        dy = n % 2 == 0
+        M = _block_spd(rng, part, dy)
+        lab = '|'.join(''.join(str(i + 1) for i in b) for b in part)
+        mat(f'blocks {lab}', 'block', M, scale=n % 5 == 0)
+        if full or n % 4 == 1:
+            a = rng.choice(part[0])
+            b = rng.choice(part[-1])
+            X = M.copy()
+            x = (cm.dyadic(rng, 0.25, 1, 3) if dy else rng.uniform(0.25, 1.0)) * rng.choice([1, -1])
+            X[a, b] = X[b, a] = x
+            mat(f'blocks {lab} + C{min(a, b) + 1}{max(a, b) + 1}', 'block+1', X, scale=False)
+    for n in range(30 if full else 8):
+        M = _spd_dyadic(rng, 3) if n % 2 else _spd_float(rng)
+        a, b = rng.sample(range(6), 2)
+        M[a, b] = M[b, a] = 0.0
+        mat(f'dense SPD without C{min(a, b) + 1}{max(a, b) + 1}', 'dense-1', M, scale=False)
+    return pool
+
+
+def _own_rotate66(R, C):
+    """6x6 of the tensor rotated by R: float arithmetic of the harness (own Voigt map, own einsum)"""
+    np = _np()
+    C4 = np.zeros((3, 3, 3, 3))
+    for i, j, k, l in _IDX4:
+        C4[i, j, k, l] = C[_VOIGT[i, j], _VOIGT[k, l]]
+    W = np.einsum('ig,jh,km,ln,ghmn->ijkl', R, R, R, R, C4)
+    pr = ((0, 0), (1, 1), (2, 2), (1, 2), (0, 2), (0, 1))
+    return np.array([[W[i, j, k, l] for (k, l) in pr] for (i, j) in pr])
+
+
+_NORM_ROTS = {'cubic': ['R4z', 'R4x', 'R3[111]'], 'hexagonal': ['R6z', 'R2x'], 'tetragonal': ['R4z'],
+              'rhombohedral': ['R3z'], 'orthorhombic': ['R2x', 'R2y'], 'monoclinic': ['R2y'], 'triclinic': [],
+              'isotropic': ['R4x', 'R3[111]', 'gen']}
+
+
+@_clause('normalized')
+def _check_normalized_symmetry(ctx, rng, ec, info, tag):
+    """normalized_as(system) of ANY tensor is a tensor of that system: invariant under the system's generating
+    rotations (rotated here by the harness), a fixed point of normalized_as, accepted by is_normal."""
+    np = _np()
+    rots = _gen_rotations()
+    c = ec.Cij
+    mx = float(np.abs(c).max())
+    for target in SYSTEMS:
+        ctx.stats.case('oracle:normalized-symmetry', (tag, target, cm.frs(c)))
+        rep = {'op': 'normalized', **info, 'system': target}
+        n1, e = _call(lambda: ec.normalized_as(target))
+        if e is not None:
+            ctx.violate(f'normalized:raises:{target}', f'{tag}: normalized_as({target!r}) raised {e}', rep)
+            continue
+        nc = n1.Cij
+        if not np.array_equal(ec.Cij, c):
+            ctx.violate('normalized:mutates', f'{tag}: normalized_as({target!r}) changes the object it is called on', rep)
+        for rn in _NORM_ROTS[target]:
+            R = _rand_rotation(rng) if rn == 'gen' else rots[rn]
+            d = float(np.abs(_own_rotate66(R, nc) - nc).max())
+            if d > 1e-12 * mx + 1e-13 * float(np.abs(nc).max()) * 100:
+                ctx.violate(f'normalized:symmetry:{target}', f'{tag}: normalized_as({target!r}) is not invariant under {rn} '
+                            f'(max diff {d:.3e})', rep)
+                break
+        n2, e2 = _call(lambda: n1.normalized_as(target).Cij)
+        cond = float(np.linalg.cond(c))
+        tol = 1e-11 * (cond if target == 'isotropic' else 1.0)
+        if e2 is not None or not np.allclose(n2, nc, rtol=tol, atol=2e-9 * mx):
+            ctx.violate(f'normalized:idempotent:{target}', f'{tag}: normalized_as({target!r}) is not idempotent '
+                        f'({e2 or np.abs(n2 - nc).max()})', rep)
+        ok, e3 = _call(lambda: n1.is_normal(target))
+        if e3 is not None or not ok:
+            ctx.violate(f'is_normal:{target}', f'{tag}: normalized_as({target!r}).is_normal({target!r}) is {e3 or ok}', rep)
+
+
+def _search_structured(ctx, rng, big):
+    """templates x settings x principal-axis rotations, coincidental ties, sparsity patterns: every clause of the
+    property (representations, C:S, moduli by definition, group action, energy, invariance of the moduli)."""
+    np = _np()
+    import atomman as am
+    EC = am.ElasticConstants
+    full = ctx.thorough
+    for rnd in range(big):
+        pool = _struct_pool(rng, 0, full)
+        ctx.extra['structured_pool'] = {f: sum(1 for p in pool if p[1] == f) for f in sorted({p[1] for p in pool})}
+        nrot = {'template': (3, 2, 2), 'setting': (3, 1, 1), 'tie': (1, 1, 1), 'named-tie': (1, 1, 1),
+                'block': (0, 0, 0), 'block+1': (0, 0, 0), 'dense-1': (1, 1, 0)}
+        for n, (label, fam, info) in enumerate(pool):
+            ec = _new(ctx, info, label, **({'Cij': np.array(info['Cij'])} if 'Cij' in info else info['kwargs']))
+            if ec is None:
+                continue
+            ctx.stats.case('oracle:structured', (fam, label, cm.frs(ec.Cij)),
+                           sample={'op': 'representations', 'family': fam, 'what': label, **info})
+            _check_tensor_clauses(ctx, ec, info, label)
+            _check_moduli(ctx, ec, info, label)
+            if fam in ('template', 'tie', 'named-tie') or n % 6 == 0:
+                _check_normalized_symmetry(ctx, rng, ec, info, label)
+            naxes, nsp, ngen = nrot[fam]
+            if fam in ('block', 'block+1') and (full or n % 5 == 0):
+                naxes, nsp, ngen = 1, 1, 1
+            for axis in rng.sample(range(3), naxes):
+                for lab, R in _axis_rotations(rng, axis, nsp * (2 if full else 1), ngen):
+                    # second rotation: general, or about another / the same principal axis
+                    k = rng.randrange(3)
+                    R2 = _rand_rotation(rng) if k == 0 else _axis_rotations(rng, rng.randrange(3), 1, 1)[k - 1][1]
+                    _check_rotation_clauses(ctx, ec, R, R2, _rand_strain(rng), info, f'{label}, {lab}')
 
 
 # ---- one object, many reads: order independence, purity, no aliasing, setters overwrite -------------------
@@ -2567,6 +2991,7 @@ def search(ctx, broken):
     _search_scales(ctx, rng, big)
     _search_objects(ctx, rng, big)
     _search_audit(ctx, rng, big)
+    _search_structured(ctx, rng, big)
 
 
 def _search_scales(ctx, rng, big):
@@ -3717,7 +4142,8 @@ def _replay_audit(ctx, r):
     op = r.get('op')
     rng = random.Random(0)
     if op == 'moduli':
-        _check_moduli(ctx, EC(Cij=np.array(r['Cij'])), {'Cij': r['Cij']}, 'replay')
+        ec = EC(Cij=np.array(r['Cij'])) if 'Cij' in r else EC(**r['kwargs'])
+        _check_moduli(ctx, ec, {k: r[k] for k in ('Cij', 'kwargs') if k in r}, 'replay')
     elif op == 'refusal' and r.get('what') == 'keywords':
         vals = dict(r.get('kwargs', {}))
         for mk in set(r['keys']) & set(MATRIX_KEYS):
@@ -3860,6 +4286,9 @@ def replay(ctx, payload):
                   [want[0, 0], want[0, 1], want[3, 3]])
             if e is not None or not np.allclose(out, want, rtol=1e-6):
                 ctx.violate('iso:' + ','.join(r['kwargs']), 'replayed case still fails', r)
+        elif op == 'normalized' and ('Cij' in r or 'kwargs' in r):
+            ec = am.ElasticConstants(Cij=np.array(r['Cij'])) if 'Cij' in r else am.ElasticConstants(**r['kwargs'])
+            _check_normalized_symmetry(ctx, random.Random(0), ec, {k: r[k] for k in ('Cij', 'kwargs') if k in r}, 'replay')
         elif op == 'readorder':
             make = (lambda: am.ElasticConstants(Cij=np.array(r['Cij']))) if 'Cij' in r else \
                 (lambda: am.ElasticConstants(**r['kwargs']))
@@ -3896,7 +4325,9 @@ MANIFEST = {
             'of stale or shared state against fresh objects.  Refusals (keyword sets, improper / tilted axes, styles, '
             'malformed arrays), options (tol, atol/rtol, default style, zero-valued constants), input forms (dtypes, '
             'layouts, numpy scalars), axes_check on its own and the data model under non-default working units are '
-            'decided by independent tables in the oracle; stored states are fixed points of the Cij setter, transform '
+            'decided by independent tables in the oracle; tensors with SHAPE (templates in every setting rotated '
+            'about the principal axes, coincidental ties, every block pattern of the Voigt indices) go through all '
+            'clauses; stored states are fixed points of the Cij setter, transform '
             'is homogeneous under a change of units, and normalisation through the setter is idempotent for five of '
             'the eight targets (theorems).',
     'note': 'Trusted: Lean kernel + propext/Classical.choice/Quot.sound; the translator/symbolic executor in '
